@@ -37,6 +37,17 @@ def expected(m, ph, st, hamlet):
         return None
     return None
 
+def released_accepts(st):
+    """validity of a generated parameter set is decided by the released library (python's crypt module binds the system libcrypt), not by the model"""
+    try:
+        import warnings
+        with warnings.catch_warnings():
+            warnings.simplefilter("ignore"); import crypt as pycrypt_mod
+        r = pycrypt_mod.crypt("x", st.decode("latin1"))
+        return r is not None and not r.startswith("*")
+    except Exception:
+        return False
+
 def run(R):
     ok, badthm = R.prove()
     quick = R.tier == "quick"
@@ -47,8 +58,19 @@ def run(R):
         "sunmd5": [b"$md5,rounds=5$saltsalt$", b"$md5$saltsalt$", b"$md5,rounds=904$x$"], "nt": [b"$3$"], "descrypt": [b"ab", b"..", b"zz", b"Kx"], "bigcrypt": [b"ab............", b"zz" + b"." * 30],
         "bsdicrypt": [b"_J9..salt", b"_/...abcd", b"_1...zzzz", b"_.....aaa"], "scrypt": [b"$7$66..../....saltsalt", b"$7$4/..../....x", b"$7$86..../....SodiumChloride"],
         "bcrypt": [b"$2b$04$abcdefghijklmnopqrstuu", b"$2b$05$......................"], "bcrypt_a": [b"$2a$04$abcdefghijklmnopqrstuu"], "bcrypt_x": [b"$2x$04$abcdefghijklmnopqrstuu"],
-        "bcrypt_y": [b"$2y$04$abcdefghijklmnopqrstuu"], "yescrypt": [b"$y$j75$saltsaltsalt", b"$y$j85$abcd", b"$y$j75/.$abcd", b"$y$.75$abcd", b"$y$/65$abcd"], "gost_yescrypt": [b"$gy$j75$saltsaltsalt", b"$gy$j85$abcd"],
+        "bcrypt_y": [b"$2y$04$abcdefghijklmnopqrstuu"], "yescrypt": [b"$y$j75$saltsaltsalt", b"$y$j85$abcd", b"$y$j75/.$abcd", b"$y$.75$abcd", b"$y$/65$abcd",
+                     # explicit parallelism p (not a power of two, so that N/p is odd) and time parameter t (seeded/C02)
+                     b"$y$j85.1$saltsalt", b"$y$j750//$abcd", b"$y$j55./$abcd", b"$y$j75./$abcd", b"$y$j65.0$abcd"],
+        "gost_yescrypt": [b"$gy$j75$saltsaltsalt", b"$gy$j85$abcd", b"$gy$j85.1$abcd", b"$gy$j550//$abcd"],
     }
+    # plus grammar-generated yescrypt parameter sets (p in {2,3}, t in {0,1,2}, N = 2^4..2^10, r in {1,2,8}) that the model accepts
+    for tag, m in ((b"$y$", "yescrypt"), (b"$gy$", "gost_yescrypt")):
+        seen = 0
+        for _ in range(400):
+            st, _, cls = S.gen_yescrypt(R.rng, tag)
+            if ":p" in cls and "rw" in cls and "bad" not in cls and "NROM" not in cls and ",g1" not in cls and "junk" not in cls and released_accepts(st):
+                canon_variants[m].append(st); seen += 1
+            if seen >= (6 if quick else 40): break
     ops, meta = [], []
     lens = list(range(0, 40)) + [55, 56, 57, 63, 64, 65, 71, 72, 73, 111, 112, 119, 120, 127, 128, 129, 200, 255, 256, 257, 510, 511] if quick else list(range(0, 512))
     for m, vs in canon_variants.items():
